@@ -23,6 +23,8 @@ def join(*xs):
 
 
 class Lin:
+    named_params = frozenset()  # names the rule under analysis binds explicitly (set by the caller)
+
     def __init__(self, world, is_var):
         self.world, self.ev, self.is_var = world, world.ev, is_var
         self.memo = {}
@@ -350,8 +352,11 @@ class Lin:
                     sig_ = self.world.env.signature(ref.qual) or {"pos": []}
                     extra = [v for k, v in t.kw.items() if k in aff_opts]
                     extra += [a for i, a in enumerate(t.args) if i < len(sig_["pos"]) and sig_["pos"][i] in aff_opts]
-                    extra += [a for i, a in enumerate(t.args) if a.op == "star" and i >= 1]
-                    extra += list(t.get("dstar", []))
+                    # the rule's own *args / **kwargs cannot carry an option that the rule binds by NAME (it arrives in
+                    # that parameter): forwarding them is then free of the option
+                    named_all = all(o in self.named_params for o in aff_opts)
+                    extra += [a for i, a in enumerate(t.args) if a.op == "star" and i >= 1 and not (named_all and a.x.op == "rest")]
+                    extra += [d_ for d_ in t.get("dstar", []) if not (named_all and d_.op == "kwrest")]
                     if any(not zeroish(x_) for x_ in extra):
                         self.blame(t, f"numpy.{bn} with {' / '.join(aff_opts)} (or forwarded *args / **kwargs) adds values that do not come from the (co)tangent: affine")
                         return join(args[0], "A")
@@ -533,6 +538,9 @@ def closures_linear(ctx, world):
         else:
             isg = lambda t: t.op == "sym" and t.get("role") == "g"
         L = Lin(world, isg)
+        if ir.maker is not None and hasattr(ir.maker.fnode, "args"):
+            ma_ = ir.maker.fnode.args
+            L.named_params = frozenset(a_.arg for a_ in ma_.posonlyargs + ma_.args + ma_.kwonlyargs)
         v = L.of(ir.result)
         # A5.cut: a selection on the VALUE of the cotangent is evaluated on the raw value even when the cotangent is
         # traced (higher-order derivatives): the skipped term's dependence on the input is then cut out of the graph
